@@ -53,6 +53,7 @@ pub struct LinkLog {
 #[derive(Clone, Debug, Serialize)]
 pub struct StateObs {
     pub loop_id: u32,
+    pub loop_path: Vec<usize>,
     pub coord: CoordT,
     pub true_round: u64,
     pub seen_round: u64,
